@@ -13,7 +13,10 @@
 //!   `SWAY_VERIF_NO_ASM_OPT=1`, every `#[test]` runs on the real VM, digest = sha256 of
 //!   (state, panic reason, logs); gas is not compared.
 //!
-//! Corpus lines: `ops <oplist>` (all five passes + both rounds), `pkg <in_language test package>`,
+//! * `addr <constidx|constprop|optimize0> <before> ;; ok <after> src=..`  address-arithmetic op lists (with the
+//!   ops' Display text) through the two UNMODELLED passes; the driver executes both lists.
+//!
+//! Corpus lines: `ops <oplist>` (all five passes + both rounds), `addrops <oplist>`, `pkg <in_language test package>`,
 //! `swfile <file under /verif/corpus>` (a library of `#[test]`s, built with std).
 use sha2::{Digest, Sha256};
 use std::collections::BTreeMap;
@@ -191,6 +194,132 @@ fn gen_ops(r: &mut Rng) -> String {
     g.ops.join("|")
 }
 
+
+// ------------------------------------------------------------------------------------------------
+// address-arithmetic op lists for the two UNMODELLED passes (executed before/after by the driver)
+
+const ADDR_OFFS: [u64; 7] = [0, 1, 7, 8, 16, 24, 4088];
+
+fn gen_addr_ops(r: &mut Rng) -> String {
+    let mut ops: Vec<String> = vec!["label.0:-:-".into()];
+    let mut n = 0usize;
+    let mut fresh = |n: &mut usize| { *n += 1; *n - 1 };
+    // a value register to store
+    let val = fresh(&mut n);
+    ops.push(format!("other.MOVI.{}:v{val}:-", 1000 + r.below(1000)));
+    let mut ptrs: Vec<usize> = vec![];
+    let nbases = r.range(1, 3);
+    for _ in 0..nbases {
+        let b = fresh(&mut n);
+        match r.below(6) {
+            0 => ops.push(format!("other.MOVI.{}:v{b}:-", 8 * r.range(100, 4000) + if r.chance(1, 6) { 1 } else { 0 })),
+            1 => ops.push(format!("other.ADDI.{}:v{b}:c5", *r.pick(&ADDR_OFFS))),
+            2 => ops.push(format!("other.ADDI.{}:v{b}:c7", *r.pick(&ADDR_OFFS))),
+            3 => ops.push(format!("other.LW.{}:v{b}:c5", r.below(4))),
+            4 => { ops.push("call.900:-:-".into()); ops.push(format!("move:v{b}:c18")); }
+            _ => { ops.push(format!("other.LW.{}:v{b}:c7", r.below(4))); ops.push(format!("label.{}:-:-", 10 + b)); }
+        }
+        ptrs.push(b);
+    }
+    let steps = r.range(3, 14);
+    let mut logged: Vec<usize> = vec![];
+    for _ in 0..steps {
+        let p = *r.pick(&ptrs);
+        match r.below(16) {
+            0..=3 => ops.push(format!("other.ADDI.{}:v{p}:v{p}", *r.pick(&ADDR_OFFS))),
+            4 => { let d = fresh(&mut n); ops.push(format!("other.ADDI.{}:v{d}:v{p}", *r.pick(&ADDR_OFFS))); ptrs.push(d); }
+            5 | 6 => {
+                let c = fresh(&mut n);
+                ops.push(format!("other.MOVI.{}:v{c}:-", *r.pick(&ADDR_OFFS)));
+                if r.chance(2, 3) { ops.push(format!("other.ADD:v{p}:v{p},v{c}")); }
+                else { let d = fresh(&mut n); ops.push(format!("other.ADD:v{d}:v{p},v{c}")); ptrs.push(d); }
+            }
+            7 => ops.push(format!("other.SUBI.{}:v{p}:v{p}", *r.pick(&[0u64, 8, 16]))),
+            8 => { let i = fresh(&mut n); ops.push(format!("other.LW.0:v{i}:c5")); ops.push(format!("other.MULI.{}:v{i}:v{i}", *r.pick(&[8u64, 16, 24]))); ops.push(format!("other.ADD:v{p}:v{p},v{i}")); }
+            9 => { let d = fresh(&mut n); ops.push(format!("move:v{d}:v{p}")); ptrs.push(d); }
+            10..=12 => { let x = fresh(&mut n); ops.push(format!("other.LW.{}:v{x}:v{p}", *r.pick(&[0u64, 0, 1, 2, 3, 511, 4095]))); logged.push(x); }
+            13 | 14 => ops.push(format!("other.SW.{}:-:v{p},v{val}", *r.pick(&[0u64, 0, 1, 2, 3, 511]))),
+            _ => {
+                if r.chance(1, 2) { let x = fresh(&mut n); ops.push(format!("other.LB.{}:v{x}:v{p}", r.below(9))); logged.push(x); }
+                else { ops.push(format!("other.SB.{}:-:v{p},v{val}", r.below(9))); }
+            }
+        }
+        if r.chance(1, 14) { ops.push(format!("label.{}:-:-", 100 + n)); }
+    }
+    // observe the loaded values and the final pointers
+    for c in logged.chunks(4).chain(ptrs.clone().chunks(4)) {
+        let l: Vec<String> = c.iter().map(|x| format!("v{x}")).collect();
+        ops.push(format!("other.LOG:-:{}", l.join(",")));
+    }
+    ops.push(format!("other.RET:-:v{val}"));
+    ops.join("|")
+}
+
+fn addr_lines(out: &mut impl Write, text: &str, src: &str) -> usize {
+    let Ok(ops) = ao::from_text(text) else { return 0 };
+    let mut n = 0;
+    for p in ["constidx", "constprop", "optimize0"] {
+        match guarded(|| ao::run_pass_asm(p, &ops)) {
+            Some(Ok(rep)) => { writeln!(out, "addr {p} {} ;; ok {} src={src}", rep.before, rep.after).unwrap(); n += 1; }
+            Some(Err(e)) => eprintln!("sv_c07: {e}"),
+            None => { writeln!(out, "addr {p} {} ;; panic src={src}", text).unwrap(); n += 1; }
+        }
+    }
+    n
+}
+
+// ------------------------------------------------------------------------------------------------
+// generated pointer-walk tests: asm blocks bumping a pointer in place + compiler-generated accesses
+
+fn gen_ptrwalk_test(r: &mut Rng, k: usize) -> String {
+    let n = r.range(6, 12) as usize;
+    let vals: Vec<u64> = (0..n).map(|_| r.below(1000)).collect();
+    let start = r.below(3) as usize;
+    let mut pos = start;
+    let mut body = String::new();
+    let mut expect: u64 = 0;
+    let mut consts: Vec<u64> = vec![];
+    let steps = r.range(2, 6);
+    for _ in 0..steps {
+        // bump in place by 8*d while staying in bounds
+        let room = n - 1 - pos;
+        if room > 0 {
+            let d = r.range(1, room.min(3) as u64) as usize;
+            match r.below(3) {
+                0 => body.push_str(&format!("        addi p p i{};\n", 8 * d)),
+                1 => { if !consts.contains(&(8 * d as u64)) { consts.push(8 * d as u64); } body.push_str(&format!("        add p p c{};\n", 8 * d)); }
+                _ => { for _ in 0..d { body.push_str("        addi p p i8;\n"); } }
+            }
+            pos += d;
+        } else if pos >= 2 && r.chance(1, 2) {
+            body.push_str("        subi p p i16;\n");
+            pos -= 2;
+        }
+        let w = r.below((n - pos).min(3) as u64) as usize;
+        body.push_str(&format!("        lw a p i{w};\n        add acc acc a;\n"));
+        expect += vals[pos + w];
+    }
+    let cinit: String = consts.iter().map(|c| format!("c{c}: {c}u64, ")).collect();
+    let heap = r.chance(1, 3);
+    let arr = format!("[{}]", vals.iter().map(|v| format!("{v}u64")).collect::<Vec<_>>().join(", "));
+    let (j1, j2) = (r.below(n as u64) as usize, r.below(n as u64) as usize);
+    let base_setup = if heap {
+        // copy the array to the heap and keep the pointer in memory: the asm block re-loads it
+        format!("    let v: Vec<u64> = Vec::new();\n    let mut v = v;\n    let mut i = 0;\n    while i < {n} {{ v.push(arr[i]); i += 1; }}\n    let base = v.ptr();\n")
+    } else {
+        "    let base = __addr_of(arr);\n".to_string()
+    };
+    format!(
+        "#[test]\nfn pw_{k}() {{\n    let arr = {arr};\n{base_setup}    let idx = opq({start});\n    let r = asm(base: base, idx: idx, {cinit}p, a, acc) {{\n        muli p idx i8;\n        add p base p;\n        movi acc i0;\n{body}        acc: u64\n    }};\n    log(r);\n    log(arr[{j1}] + arr[{j2}]);\n    let s = S {{ x: arr[{j1}], y: (arr[{j2}], [r, 1u64, 2u64]) }};\n    log(s.y.1[0] + s.y.0 + s.x);\n    assert(r == {expect});\n}}\n\n"
+    )
+}
+
+fn gen_ptrwalk_pkg(r: &mut Rng, tests: usize) -> String {
+    let mut s = String::from("library;\n\nstruct S { x: u64, y: (u64, [u64; 3]) }\n\n#[inline(never)]\nfn opq(x: u64) -> u64 { x }\n\n");
+    for k in 0..tests { s.push_str(&gen_ptrwalk_test(r, k)); }
+    s
+}
+
 // ------------------------------------------------------------------------------------------------
 // kernel lines
 
@@ -250,6 +379,13 @@ fn child_main(dir: &str, profile: &str, outfile: &str) {
             out.push_str("done\n");
         }
         Some(Err(e)) => {
+            if std::env::var("VERIF_C07_VERBOSE").is_ok() {
+                // show the compiler's diagnostics
+                let mut o = swayrun::test_opts(Path::new(dir), profile == "release");
+                o.pkg.terse = false;
+                o.no_output = false;
+                let _ = forc_test::build(o);
+            }
             let msg = format!("{e:#}");
             out.push_str(&format!("builderr {}\n", digest(&[msg])));
         }
@@ -468,6 +604,7 @@ fn main() {
             let (k, v) = l.split_once(' ').unwrap_or((l, ""));
             match k {
                 "ops" if !only_progs => n_kernel += pass_lines(&mut out, v.trim(), "corpus", true),
+                "addrops" if !only_progs => n_kernel += addr_lines(&mut out, v.trim(), "corpus"),
                 "pkg" => if let Some(p) = std_pkg_template(v.trim(), &scratch) { pkgs.push(p) },
                 "swfile" => {
                     let path = Path::new("/verif/corpus").join(v.trim());
@@ -486,6 +623,11 @@ fn main() {
         for _ in 0..a.n {
             let text = gen_ops(&mut r);
             n_kernel += pass_lines(&mut out, &text, "syn", true);
+        }
+        // address arithmetic through the two unmodelled passes (executed by the driver)
+        for _ in 0..(2 * a.n) {
+            let text = gen_addr_ops(&mut r);
+            n_kernel += addr_lines(&mut out, &text, "syn");
         }
     }
 
@@ -509,6 +651,11 @@ fn main() {
             let mut src = proggen::package_prelude();
             for k in 0..per { src.push_str(&proggen::gen_program(&mut r, g * per + k, false, false).to_sw()); }
             if let Some(p) = src_pkg_template(&format!("c07gen{g}"), &src, &scratch) { pkgs.push(p) }
+        }
+        let pws = if no_gen { 0 } else if thorough { 4 } else { 1 };
+        for g in 0..pws {
+            let src = gen_ptrwalk_pkg(&mut r, if thorough { 24 } else { 14 });
+            if let Some(p) = src_pkg_template(&format!("c07ptr{g}"), &src, &scratch) { pkgs.insert(pkgs.len().min(4), p) }
         }
         let parallel = std::env::var("VERIF_C07_JOBS").ok().and_then(|s| s.parse().ok()).unwrap_or(6);
         // time budget for starting child builds (a started child may still take VERIF_C07_TIMEOUT)
